@@ -1,16 +1,18 @@
 SPECIFICATION Spec
 CONSTANTS
   MaxLen = 3
+  MaxLenNew = 2
   MaxOuter = 1
   MaxInner = 2
   Bodies = {"empty", "h", "cx_u", "arr"}
-  NestedBodies = {"cx_u", "arr"}
+  NestedBodies = {"cx_u"}
 INVARIANT Report
 INVARIANT ClassesExact
 INVARIANT WellTypedIffNotCrossed
 INVARIANT ControlsPreserved
 INVARIANT PowersPreserved
 INVARIANT FixIsWellTyped
+INVARIANT StaleWireExact
 INVARIANT DaggerByParity
 INVARIANT FlagsAgreeWithOps
 INVARIANT NormalForm
